@@ -206,7 +206,8 @@ def sweep_events(ctx, n_frames, start_id):
                 try:
                     results.append(_p(fn(fr)))
                 except Exception as e:  # error class is an observable here
-                    results.append({'k': 'err', 'cat': P.err_category(e)})
+                    # (except for astype, where the class depends on which unconvertible cell NumPy meets first: TypeError for None, ValueError for text)
+                    results.append({'k': 'err', 'cat': 'conversion' if name.startswith('astype') else P.err_category(e)})
             events.append({'id': eid, 'kind': 'sweep', 'op': name, 'f': f, 'layouts': lays, 'results': results})
             ctx.count('V_sweep_' + ('err' if results[0].get('k') == 'err' else 'ok'))
             eid += 1
